@@ -50,7 +50,7 @@ class WSPeer:
         self.frag_kind = ""
         self.frag: Any = None
         self.out_index = 0
-        self.mid = 0
+        self.mid = len(sess.ws_sent.get(rid, []))   # (messages written together with the handshake count)
         self.closed_seen = False
         self.parse_error = False
         self._pending: List[Any] = []
